@@ -20,9 +20,11 @@
    S4 dsl.py ComponentFlowIR.convert_outputreferences_to_datareferences:
       `sorted(parameters_legacy.union(arguments_legacy))` (a set, sorted)       -> [sort (piS l)]
       and namespace_to_flowir.hash_environment `for key in sorted(environment)`  -> [sort_kv (piD l)]
-   S5 dsl.py the same method: `for ref_str in parameters_output.union(arguments_output):
-      arguments = arguments.replace(ref_str, new_ref_str)` (a set, NOT sorted)   -> [replace_refs piS]
-      (modelled, invariance NOT proved: covered only by the multi-seed correspondence runs)
+   S5 dsl.py the same method: `for ref_str in <set>: arguments = arguments.replace(ref_str, new_ref_str)`
+        pinned code     <set> = parameters_output.union(arguments_output) (NOT sorted) -> [replace_refs piS]
+        repaired code   sorted(parameters_output.union(arguments_output))   -> [replace_refs_sorted piS]
+      (Det.Refs: the pinned loop is invariant, and equal to the simultaneous substitution, exactly when the
+       reference strings are separated; otherwise two set orders give two argument strings: finding F15b)
 
    Dictionaries are association lists (V.Lib.JTree.jv); a YAML document never has a repeated key
    ([wfk]). *)
@@ -44,7 +46,7 @@ Definition oracle_sites : list string :=
     "S3 graph.ComponentSpecification._memoization_info_to_hash: sorted(obj)";
     "S4 dsl.ComponentFlowIR.convert_outputreferences_to_datareferences: sorted(parameters_legacy.union(arguments_legacy))";
     "S4 dsl.namespace_to_flowir.hash_environment: sorted(environment)";
-    "S5 dsl.ComponentFlowIR.convert_outputreferences_to_datareferences: for ref_str in parameters_output.union(arguments_output)" ].
+    "S5 dsl.ComponentFlowIR.convert_outputreferences_to_datareferences: sorted(parameters_output.union(arguments_output))" ].
 
 (* ---------------------------------------------------------------- S1: the list of variable files *)
 Fixpoint mem (x : string) (l : list string) : bool :=
@@ -228,10 +230,18 @@ Fixpoint ser_pi (piD : oracle (string * string)) (v : jv) : option string :=
 (* S4: the references of a DSL component: sorted(set) *)
 Definition references_of (piS : oracle string) (refs : list string) : list string := sort (piS (dedup_last refs)).
 
-(* S5: replacement of the output references in the arguments, in set order (invariance not proved) *)
-Definition replace_refs (piS : oracle string) (refs : list (string * string)) (args : string) : string :=
-  let order := piS (dedup_last (map fst refs)) in
+(* S5: replacement of the output references in the arguments: the loop
+     for ref_str in ORDER: arguments = arguments.replace(ref_str, new_ref_str)
+   refs maps every reference string of the set to the legacy data reference that replaces it. *)
+Definition apply_refs (refs : list (string * string)) (order : list string) (args : string) : string :=
   fold_left (fun a r => match lookup r refs with Some n => replace r n a | None => a end) order args.
+(* pinned code: ORDER = the iteration order of the set parameters_output.union(arguments_output).
+   Invariant only when the reference strings are separated (Det.Refs); refuted otherwise = finding F15b *)
+Definition replace_refs (piS : oracle string) (refs : list (string * string)) (args : string) : string :=
+  apply_refs refs (piS (dedup_last (map fst refs))) args.
+(* repaired code: ORDER = sorted(parameters_output.union(arguments_output)) *)
+Definition replace_refs_sorted (piS : oracle string) (refs : list (string * string)) (args : string) : string :=
+  apply_refs refs (sort (piS (dedup_last (map fst refs)))) args.
 
 (* ---------------------------------------------------------------- checkers used by the correspondence run *)
 Definition read_of (tbl : list (string * jv)) (path : string) : jv :=
@@ -295,3 +305,10 @@ Definition check_refs (c : list string * list string) : bool :=
      | x :: r, y :: s => String.eqb x y && eq r s
      | _, _ => false
      end) (references_of id_oracle found) refs.
+
+(* replacement case = ((reference string -> data reference that replaces it, arguments before the loop),
+                       arguments after the loop as left by the implementation) *)
+Definition check_replace (c : (list (string * string) * string) * string) : bool :=
+  let '((refs, args), out) := c in
+  String.eqb (replace_refs_sorted id_oracle refs args) out &&
+  String.eqb (replace_refs_sorted (@rev _) refs args) out.
